@@ -267,7 +267,8 @@ but no other interpretation is applied
 
         logical = "True"                # logical condition required to execute block
         block = []
-        ifBlock = []
+        inBranch = False                # are we in a branch of an if ... else chain?  N.b. block may be empty
+        ifBlock = None                  # the block preceding the "} else {" of the current chain, once seen
         logicalBlocks = []              # list of [logical1, action1, (logical2, action2)*, actionN]
                                         # corresponding to
                                         # if(logical1) {
@@ -284,7 +285,7 @@ but no other interpretation is applied
             mat = re.search(r"^(?:if\s*\((.*)\)\s*{\s*|}\s*(?:(else(?:\s*if\s*\((.*)\))?)\s*{\s*)?)$", \
                                 line, re.IGNORECASE)
             if mat:
-                if block:
+                if block or inBranch:
                     if mat.group(2) == "else": # i.e. we saw an } else {
                         ifBlock = block
                     elif mat.group(3) != None: # i.e. we saw an } else if (...) {
@@ -292,7 +293,7 @@ but no other interpretation is applied
                         block = False
                         logical = mat.group(3)
                     else:               # we saw an }
-                        if ifBlock:
+                        if ifBlock is not None:
                             elseBlock = block
                         else:
                             ifBlock = block
@@ -302,11 +303,12 @@ but no other interpretation is applied
 
                         if logicalBlocks and mat.group(1) != None:
                             self._actions.append(logicalBlocks)
-                            ifBlock = []
+                            ifBlock = None
                             logicalBlocks = []
 
                     block = []
 
+                inBranch = mat.group(1) != None or mat.group(2) != None # i.e. anything but a bare }
                 if mat.group(1) != None:
                     logical = mat.group(1)
                 else:
@@ -314,7 +316,7 @@ but no other interpretation is applied
                         logical = "True"
                         if logicalBlocks:
                             self._actions.append(logicalBlocks)
-                            ifBlock = []
+                            ifBlock = None
                             logicalBlocks = []
 
                 continue
